@@ -136,6 +136,17 @@ def feopt_specific(p, k, expected):
     return _feopt_cache[key]
 
 
+def has_at_literal(tree, classic):
+    """an integer literal 64 (the byte `@`) — or, for the classic reader, a hex literal 0x40."""
+    if tree[0] == "int":
+        return tree[1] == 64
+    if tree[0] == "hex":
+        return classic and tree[1] == b"@"
+    if tree[0] == "list":
+        return any(has_at_literal(x, classic) for x in tree[1]) or (tree[2] is not None and has_at_literal(tree[2], classic))
+    return False
+
+
 def classify(pid, p, entry, src_out, impl_out, proghex):
     """signature of an oracle failure (used to match known findings)."""
     d = p["dialect"]
@@ -143,6 +154,8 @@ def classify(pid, p, entry, src_out, impl_out, proghex):
         return "compile:cl22-feopt-leaked-name"
     if d == "strict21" and optimizing(entry) and "ff0140" in proghex:
         return "compile:strict21-opt-quoted-at"
+    if d in ("classic", "cl21", "cl22") and has_at_literal(p["tree"], d == "classic"):
+        return "compile:nonstrict-literal-64-is-env"
     if d != "cl22" and rest_call_of_binding_inline(p["tree"]):
         return "compile:inline-rest-binding-form"
     if classic_optimised(d, entry) and max_rest_run(p["tree"]) >= 15:
